@@ -77,6 +77,7 @@ package value
 //@   trusted interface-level summary of the seven Ternary methods (each one is verified below against the same reading)
 //@   requires recv != nil
 //@   ensures result == ternOf(recv)
+//@   ensures result == ternary.TRUE || result == ternary.FALSE || result == ternary.UNKNOWN
 //@   modifies nothing
 
 //@ func (String).Ternary
@@ -210,6 +211,10 @@ package value
 //@ spec def swapCmp(c ComparisonResult) ComparisonResult = ite(c == IsLess, IsGreater, ite(c == IsGreater, IsLess, c))
 //@ lemma cmp_swap: forallv(a, Primary, forallv(b, Primary, forallv(f, []string, forallv(l, *time.Location,
 //@     cmpOf(b, a, f, l) == swapCmp(cmpOf(a, b, f, l))))))
+//@   property C06
+//@   reveal cmpOf
+//@ lemma cmp_null_is_incommensurable: forallv(a, Primary, forallv(b, Primary, forallv(f, []string, forallv(l, *time.Location,
+//@     (a == null || b == null) ==> cmpOf(a, b, f, l) == IsIncommensurable))))
 //@   property C06
 //@   reveal cmpOf
 //@ lemma law_less_is_greater_swapped: forallv(a, Primary, forallv(b, Primary, forallv(f, []string, forallv(l, *time.Location,
